@@ -1098,20 +1098,13 @@ class DistNormalTrunc(DistContinuous):
                 return self._lo
             else:
                 return self._hi
+        # The argument of the inverse lies between the cumulative probabilities
+        # of lo and hi, so a value outside [lo, hi] can only be caused by the
+        # approximation error of erf_inv: return the bound.
         if d < self._lo:
-            # rounding error?
-            if abs(d - self._lo) < 1E-6 * abs(self._lo):
-                return self._lo
-            else:
-                raise ValueError(f"drawn value {d} outside of interval "\
-                    f"[min, max] = [{self._lo}, {self._hi}]") 
+            return self._lo
         if d > self._hi:
-            # rounding error?
-            if abs(d - self._hi) < 1E-6 * abs(self._hi):
-                return self._hi
-            else:
-                raise ValueError(f"drawn value {d} outside of interval "\
-                    f"[min, max] = [{self._lo}, {self._hi}]") 
+            return self._hi
         return d
     
     def probability_density(self, x: float) -> float:
